@@ -42,7 +42,8 @@ META = {
             'notified; a failed / unanswered heartbeat leaves the connection defunct and owner.return_connection(conn) called exactly '
             'once in that round; in_flight equals the number of really outstanding requests and free + outstanding ids are exactly the '
             'ids handed out, in every round and at the end; in_flight never leaves [0, max] on an open connection; no deadlock, no '
-            'exception escaping a thread, no round aborted by a swallowed exception; stop() ends the thread.',
+            'exception escaping a thread, no round aborted by a swallowed exception; in the E layer a round starts at most '
+            'interval + timeout (virtual) seconds after the previous one; stop() ends the thread.',
     'note': 'ConnectionHeartbeat is re-based on the virtual Thread class (same function objects); Event.wait with a negative timeout '
             'returns at once as threading.Event does.  Connections that cannot be sent a heartbeat (at capacity, socket not writable) '
             'may either fail (defunct + owner notified once) or be left alone with unchanged capacity.  Notification of owners about '
@@ -115,7 +116,7 @@ def e_plan(ctx):
                  ('2conn-pool+control-full-newest-first', 'fake', [0, 1], ALPHA_FULL, 2, (True,)),
                  ('2conn-one-pool-full', 'fake', [0, 0], ALPHA_FULL, 2, (False, True)),
                  ('3conn-mid', 'fake', [0, 0, 1], ALPHA_MID, 2, (False, True)),
-                 ('real-cluster-mid', 'real', [0, 1, 2], ALPHA_MID, 2, (False,))]
+                 ('real-cluster-mid', 'real', [0, 1, 2], ALPHA_SMALL + [('event', None), ('full', None)], 2, (False,))]
     return plan
 
 
@@ -167,7 +168,7 @@ def e_chunk(args):
 def _e_chunk(kind, vecs, part, want_sample):
     for params in vecs:
         x = e_judge(kind, params, part)
-        if want_sample and len(part.samples) < 1 and 'timeout_failure' in x.flags and 'failure' in x.flags:
+        if want_sample and len(part.samples) < 1 and 'timeout_failure' in x.flags and (len(params['conns']) == 1 or 'failure' in x.flags):
             part.sample({'layer': 'E', 'kind': kind, 'vector': params, 'observed': x.facts,
                          'owner_notified(round,conn,holder)': x.returned})
     return part
@@ -245,9 +246,11 @@ def s_harness(params, prefix, part):
     part.outcome(('S', tuple(sorted((h['kind'], str(h['wait'])) for h in x.heartbeats)), x.client_state))
     if any(p.chosen for p in s.trace) and (x.flags - {'fresh'}):
         part.mark_nontrivial(_h((params, s.choices())))
-    if 'late_supported' in x.flags or 'client_overlaps_heartbeat' in x.flags:
-        part.sample({'layer': 'S', 'config': params, 'choices': s.choices(), 'flags': sorted(x.flags),
-                     'heartbeats': [(h['round'], h['conn'], h['kind'], h['wait']) for h in x.heartbeats]}, limit=1)
+    if any(p.chosen for p in s.trace) and ('late_supported' in x.flags or 'client_overlaps_heartbeat' in x.flags):
+        ch = s.choices()
+        part.sample({'layer': 'S', 'config': params, 'choice_points': len(ch), 'non_default_choices(index,value)': [(i, c) for i, c in enumerate(ch) if c],
+                     'flags': sorted(x.flags), 'heartbeats(round,conn,answer,answered_in_time)': [(h['round'], h['conn'], h['kind'], h['wait']) for h in x.heartbeats],
+                     'events': [list(ev) for ev in x.log]}, limit=1)
     return s
 
 
@@ -324,7 +327,7 @@ def run(ctx):
     cfgs = ctx.rotate(s_configs(ctx)) if 'S' in layers else []
     passes = [(cfgs, 1, None)]
     if ctx.thorough:
-        passes.append(([c for c in cfgs if not c.get('b1')], 2, 1500))     # cap: executions per batch of 8 subtrees
+        passes.append(([c for c in cfgs if not c.get('b1')], 2, 800))     # cap: executions per batch of 8 subtrees
     info = ctx.cov['harnesses']['S'] = {'configs': len(cfgs),
                                         'preemption_bounded_configs': sum(1 for c in cfgs if c['cost'] == 'preemptions'),
                                         'deviation_bounded_configs': sum(1 for c in cfgs if c['cost'] == 'deviations'), 'passes': []}
